@@ -53,3 +53,24 @@ Definition fill_from (l : list Z) (a v : Z) : outcome (list Z) :=
   if (0 <=? a) && (a <=? lenZ l)
   then Val (firstn (Z.to_nat a) l ++ repeat v (length l - Z.to_nat a)) else Panic.
 Definition get_or_default (l : list Z) (i : Z) : Z := nth (Z.to_nat i) l 0.
+(* loops whose body may `return` from the function: the body yields Cont (next state) or Ret (the
+   function's result); the loop stops at the first Ret *)
+Inductive ctl (S R : Type) : Type := Cont (s : S) | Ret (r : R).
+Arguments Cont {S R} s.
+Arguments Ret {S R} r.
+Fixpoint for_loop_ret {S R : Type} (n : nat) (i : Z) (st : S) (body : Z -> S -> outcome (ctl S R))
+  : outcome (ctl S R) :=
+  match n with
+  | O => Val (Cont st)
+  | S n' => do c <- body i st ;
+            match c with Cont st' => for_loop_ret n' (i + 1) st' body | Ret r => Val (Ret r) end
+  end.
+Definition for_range_ret {S R : Type} (lo hi : Z) (st : S) (body : Z -> S -> outcome (ctl S R)) :=
+  for_loop_ret (Z.to_nat (hi - lo)) lo st body.
+Fixpoint for_down_ret {S R : Type} (n : nat) (st : S) (body : Z -> S -> outcome (ctl S R))
+  : outcome (ctl S R) :=
+  match n with
+  | O => Val (Cont st)
+  | S n' => do c <- body (Z.of_nat n') st ;
+            match c with Cont st' => for_down_ret n' st' body | Ret r => Val (Ret r) end
+  end.
